@@ -302,8 +302,7 @@ fn gen_history(rng: &mut Prng, thorough: bool) -> History {
         } else if r < 52 {
             Op::Del(gen_key(rng, space))
         } else if r < 64 {
-            let n = rng.range(2, 5);
-            Op::Batch((0..n).map(|_| (gen_key(rng, space), if rng.chance(1, 4) { None } else { Some(gen_val(rng, false)) })).collect())
+            Op::Batch(crate::dbsim::gen_batch_ops(rng, space, 2, 5))
         } else if r < 74 {
             Op::Fill(rng.below(20) as u32, rng.range(3, 12) as u32, *rng.pick(&[20u32, 100, 300]))
         } else if r < 82 {
